@@ -212,6 +212,18 @@ func TestC09(t *testing.T) { c09.Rapid(t) }
 
 func TestC09Wide(t *testing.T) { c09wide.Rapid(t) }
 
+// Deterministic scenarios shared with C06/C08: merges (and re-merges) in which a term of more
+// than 1024 documents is directly followed by a sparse first term of the next field, decoded
+// by the independent reader.
+func TestC09Fixed(t *testing.T) {
+	col := stats.New("C09", "forward-wide")
+	defer col.Write()
+	for _, c := range c06FixedPlans() {
+		col.CaseHash(stats.HashJSON(c), true, []string{"dense-last-term-then-sparse-first-term"}, func() any { return sampleOf(c) })
+		reportBig(t, col, "C09", "forward-wide", c, safeRun(c09wide, c))
+	}
+}
+
 // ---------------------------------------------------------------------------
 // frozen corpus (backward half)
 
